@@ -5,6 +5,21 @@ ROOT = os.path.dirname(os.path.dirname(os.path.abspath(__file__)))
 ids = [json.loads(l)["id"] for l in open(os.path.join(ROOT, "properties.jsonl"))]
 
 CLAIMED = {
+ "C19": dict(
+   text="Lean 4 theorems (Props/C19.lean): script level — orderOk_consume_only_after_store and orderOk_respond_last: for EVERY script obeying the order discipline and "
+        "EVERY fault position k, the exchanged credential is consumed only after its replacement was stored, and nothing is written after the response was built; "
+        "generated_flows_ordered (decide +kernel over Generated/Flows.lean, the event scripts traced from the current code on every run: all 16 flows use only classified "
+        "callbacks and obey the discipline), hence generated_flow_consume_only_after_store / generated_flow_respond_last for every traced flow and every k. State level "
+        "(Model/Fault.lean = the state machines of C06/C09/C12 masked by the completed events): provider_/oauth1_fault_before_any_write (nothing completed ⇒ store "
+        "unchanged), _unstored_nothing_new, _unconsumed_kept, provider_fault_after_everything (= step). Correspondence: every flow × every callback position × every "
+        "pair of positions on successive attempts, plus random walks with interleaved faults, on the real providers: the store right after each fault, every later "
+        "output (the retries) and the final store equal the model's. Statement oracle: failure surfaces, no response hands out an unstored credential, consumed ⇒ "
+        "stored, grant not lost.",
+   note="Trusted: Lean kernel; Python exception semantics (an exception raised in a callback unwinds to the caller unless caught — the oracle checks it is not swallowed); "
+        "reference integrators memserver.py / mem1.py (fault raised before the callback acts; failed commit rolls back); the name→kind classification of callbacks in "
+        "Model/Fault.lean; implicit flow covered by trace table + oracle only; OIDC/hybrid id_token paths not faulted.",
+   technique="Lean 4 proof (script order discipline for every fault position + regenerated traced scripts + masked state machine) + differential correspondence on faulted histories + statement oracle",
+   design="§4 C19"),
  "C12": dict(
    text="Lean 4 theorems over the OAuth 1.0 provider state machine Model/OAuth1Flow.lean (temporary credential request, user authorisation, token request, "
         "protected resource access, clock): exchangeCheck_ok_spec + exchange_ok_implies (token credentials only for a temporary credential in the store, bound to the "
